@@ -47,6 +47,14 @@ WideTypes == <<VT("UInt", 64, FALSE), VT("Int", 64, FALSE), VT("UInt", 63, FALSE
 Types == IF Family = "small" THEN SmallTypes ELSE WideTypes
 Names == <<"a", "b", "c", "d", "e", "f", "g", "h", "i", "j", "k", "l", "m", "n", "o", "p">>
 FlagNames == <<"fa", "fb", "fc">>
+\* small family: fields of the fixed skeleton that $present() may be asked about (see BoundsCheck!PresVal):
+\*   pa unconditional; pb conditional; sub / osub: an unconditional / a conditional field of structure type Sub,
+\*   whose member py is conditional and whose member pz is not
+PresNames == <<"pa", "pb", "sub.py", "sub.pz", "osub.py", "osub.pz">>
+QuickPres == {2, 3}
+\* the guards the conditions of the skeleton read (one bit each); "x.gy" is the member gy of field x
+GuardVars == <<[n |-> "ga", k |-> "UInt", w |-> 1, param |-> FALSE], [n |-> "gc", k |-> "UInt", w |-> 1, param |-> FALSE],
+               [n |-> "sub.gy", k |-> "UInt", w |-> 1, param |-> FALSE], [n |-> "osub.gy", k |-> "UInt", w |-> 1, param |-> FALSE]>>
 
 MagOfType(t) == CASE t.k = "UInt" -> 2 ^ t.w - 1
                   [] t.k = "Int" -> 2 ^ (t.w - 1)
@@ -136,6 +144,14 @@ Ref ==
   /\ Open /\ Family = "small" /\ UNCHANGED used
   /\ \E j \in Pick(DefsOfTy(H.ty)) : PutLeaf([k |-> "cref", n |-> Defs[j].n])
 
+\* small family: $present(field) of one of the skeleton's fields
+\* (random cases: at most one per expression -- every guard doubles the environments the checker enumerates)
+Pres ==
+  /\ Open /\ H.ty = "b" /\ Family = "small"
+  /\ (~Exhaustive => 200 \notin used)
+  /\ used' = IF Exhaustive THEN used ELSE used \cup {200}
+  /\ \E j \in Pick(IF Exhaustive THEN QuickPres ELSE 1..Len(PresNames)) : PutLeaf([k |-> "pres", n |-> PresNames[j]])
+
 \* wide family: a condition is a fresh one-bit flag compared with 0 or 1
 Flag ==
   /\ Open /\ H.ty = "b" /\ Family = "wide"
@@ -186,7 +202,7 @@ RECURSIVE MagOfArgs(_, _)
 MagOfArgs(as, i) == IF i > Len(as) THEN 0 ELSE MaxN(MagOf(as[i]), MagOfArgs(as, i + 1))
 MagOf(t) ==
   CASE t.k = "int" -> t.v
-    [] t.k = "bool" -> 0
+    [] t.k \in {"bool", "pres"} -> 0
     [] t.k = "var" -> MagOfType(vars[VarIdx(t.n)])
     [] t.k = "cref" -> Defs[DefIdx(t.n)].v
     [] t.k = "op" ->
@@ -195,6 +211,9 @@ MagOf(t) ==
                                   ELSE MagOf(t.args[1]) * MagOf(t.args[2]))
          ELSE IF t.fn \in {"?:", "$max", "$upper_bound", "$lower_bound"} THEN MagOfArgs(t.args, 1)
          ELSE 0
+
+RECURSIVE HasPres(_)
+HasPres(t) == t.k = "pres" \/ (t.k = "op" /\ \E j \in 1..Len(t.args) : HasPres(t.args[j]))
 
 \* where the harness places the expression (besides nothing else, it is always a `let`)
 Positions(ty) == IF ty = "i" THEN {"let", "size", "offset"} ELSE {"let", "cond", "requires"}
@@ -206,7 +225,8 @@ Emit ==
            \E pos \in (IF Exhaustive \/ Family = "wide" THEN {"let"} ELSE Pick(Positions(rty))) :
              PrintT(ToJson([fam |-> Family,
                             vars |-> [i \in 1..Len(vars) |-> [n |-> Names[i], k |-> vars[i].k, w |-> vars[i].w,
-                                                              param |-> vars[i].param]],
+                                                              param |-> vars[i].param]]
+                                     \o (IF HasPres(t) THEN GuardVars ELSE <<>>),
                             e |-> t, ty |-> rty, pos |-> pos]))
   /\ done' = TRUE
   /\ UNCHANGED <<vars, rty, pre, todo, used>>
@@ -214,7 +234,7 @@ Emit ==
 \* printed once: the definitions `cref` nodes refer to
 ASSUME PrintT(ToJson([defs |-> [j \in 1..Len(Defs) |-> [n |-> Defs[j].n, ty |-> Defs[j].ty, e |-> Defs[j].e]]]))
 
-Next == \/ Var \/ Const \/ BoolConst \/ Ref \/ Flag
+Next == \/ Var \/ Const \/ BoolConst \/ Ref \/ Flag \/ Pres
         \/ Add \/ Subtract \/ Mul \/ Max \/ Bound \/ Choice \/ CmpInt \/ CmpOther \/ Logic
         \/ Emit
 =============================================================================
